@@ -367,6 +367,7 @@ static int vlog_n;
 void vpush(uint64_t x) { if (vlog_n < 256) vlog_buf[vlog_n++] = x; }
 void vpushf(float x) { uint32_t u; memcpy(&u, &x, 4); vpush(u); }
 void vpushd(double x) { uint64_t u; memcpy(&u, &x, 8); vpush(u); }
+void vtouch(void *p) { __asm__ volatile("" : : "r"(p) : "memory"); }
 void vlogu(uint64_t x) { vpush(x); }
 void vlogf(float x) { vpushf(x); }
 void vlogd(double x) { vpushd(x); }
@@ -377,12 +378,40 @@ void vend(int32_t k) { printf("K %d", k); for (int i = 0; i < vlog_n; i++) print
 '''
 
 C_LOG_DECL = r'''
-void vpush(uint64_t x); void vpushf(float x); void vpushd(double x);
+void vpush(uint64_t x); void vpushf(float x); void vpushd(double x); void vtouch(void *p);
 void vlogu(uint64_t x); void vlogf(float x); void vlogd(double x);
 int32_t vnext(void); void vbegin(int32_t k); void vend(int32_t k); int32_t vmark(int32_t k);
 '''
 
 MARKER_BASE = 0x5A000000
+
+
+
+def leaf_rotation(t):
+    """perm with result leaf j := input leaf perm[j]: rotate by one inside every group of leaves of the same scalar kind"""
+    ls = layout(t)[2]
+    perm = list(range(len(ls)))
+    groups = {}
+    for i, (_, c) in enumerate(ls):
+        groups.setdefault(c, []).append(i)
+    for g in groups.values():
+        for a, b in zip(g, g[1:] + g[:1]):
+            perm[a] = b
+    return perm
+
+
+# Go call sites of kind 'inp' (where the memory M of `M = f(&M)` lives)
+INP_DESTS = {
+    "local": "v := va; v = f(&v)",
+    "global": "gv = f(&gv)   (package variable)",
+    "ptr": "func h(p *T) { *p = f(p) }",
+    "heap": "p := new(T); *p = va; *p = f(p)",
+    "field": "w.f = f(&w.f)   (field of a local struct)",
+    "elem": "arr[1] = f(&arr[1])",
+    "other": "b := f(&a)   (control: distinct destination)",
+    "cglobal": "keep(&v); v = f()   (the callee reaches v through a pointer C kept)",
+}
+ARGP_SRCS = {"local": "v := va; r := f(v, &v)", "global": "r := f(gv, &gv)", "deref": "func h(p *T) int32 { return f(*p, p) }"}
 
 
 class Case:
@@ -394,10 +423,17 @@ class Case:
           'cbs'  C -> Go   callback  T g(pre.., T, post..)      (Go function passed to a C driver)
           'cbi'  C -> Go   callback  int32 g(pre.., T, post..)
           'cbm'  C -> Go   callback  T g(T *p) { r := *p; p.<first leaf> = v; return r }   (copy, mutate the pointee, return the copy)
+          'inp'  Go -> C   T f(const T *p)  called as  M = f(&M): the result is stored to memory the callee can reach.
+                 dest: where M lives on the Go side (INP_DESTS); 'cglobal': the callee reaches M through a pointer C kept
+                 style 'perm':  f fills its result leaf by leaf from *p (leaf j := p->leaf[perm[j]])
+                 style 'touch': f fills its result with constants first and logs *p afterwards
+          'argp' Go -> C   int32 f(T s, T *p) called as f(M, &M): f stores to p->leaf0, logs s (must be the ORIGINAL value),
+                 overwrites s; Go logs M afterwards (only leaf0 changed).  dest: where M lives (ARGP_SRCS)
     """
 
-    def __init__(self, idx, kind, shape_idx, t, pre, post, rng, closure=False, capture=False):
+    def __init__(self, idx, kind, shape_idx, t, pre, post, rng, closure=False, capture=False, dest=None, style=None):
         self.idx, self.kind, self.shape_idx, self.t = idx, kind, shape_idx, t
+        self.dest, self.style = dest, style
         self.pre, self.post = pre, post          # lists of scalar codes
         self.closure = closure or capture
         self.capture = capture and kind == "cbi"   # the func literal captures a local variable (the value it returns)
@@ -412,18 +448,29 @@ class Case:
             self.mut_v = rand_value(rng, c0)
             while self.mut_v[1] == self.arg_v[0][1]:
                 self.mut_v = rand_value(rng, c0)
+        if kind in ("inp", "argp"):
+            self.pre, self.post, self.pre_v, self.post_v = [], [], [], []
+            c0 = layout(t)[2][0][1]
+            self.mut_v = rand_value(rng, c0)
+            while self.mut_v[1] == self.arg_v[0][1]:
+                self.mut_v = rand_value(rng, c0)
+            self.perm = leaf_rotation(t)
 
     def has_arg(self):
         return self.kind != "ret"
 
     def ret_struct(self):
-        return self.kind in ("ret", "echo", "cbs", "cbm")
+        return self.kind in ("ret", "echo", "cbs", "cbm", "inp")
 
     def sig_words(self):
         """protocol words: RET P1 P2 ..  (for `sig` / `place` lines)"""
         r = code(self.t) if self.ret_struct() else "w"
         if self.kind == "cbm":
             return [r, "p"]
+        if self.kind == "inp":
+            return [r] if self.dest == "cglobal" else [r, "p"]
+        if self.kind == "argp":
+            return ["w", code(self.t), "p"]
         ps = list(self.pre) + ([code(self.t)] if self.has_arg() else []) + list(self.post)
         return [r] + ps
 
@@ -433,6 +480,12 @@ class Case:
     def expected(self):
         if self.kind == "cbm":    # the returned copy carries the ORIGINAL values; then the pointee's first leaf, mutated
             return [v[1] for v in self.arg_v] + [self.mut_v[1]]
+        if self.kind == "inp":
+            if self.style == "touch":   # *p as the callee sees it after it has filled its result object; then the result
+                return [v[1] for v in self.arg_v] + [v[1] for v in self.ret_v]
+            return [self.arg_v[j][1] for j in self.perm]
+        if self.kind == "argp":   # s as received; the int32 result; M afterwards
+            return [v[1] for v in self.arg_v] + [self.marker] + [self.mut_v[1]] + [v[1] for v in self.arg_v[1:]]
         w = [v[1] for v in self.pre_v]
         if self.has_arg():
             w += [v[1] for v in self.arg_v]
@@ -446,6 +499,16 @@ class Case:
     def word_labels(self):
         if self.kind == "cbm":
             return ["ret.leaf%d:%s@%d" % (i, c, o) for i, (o, c) in enumerate(layout(self.t)[2])] + ["pointee.leaf0.after"]
+        if self.kind == "inp":
+            ls = layout(self.t)[2]
+            if self.style == "touch":
+                return ["input.leaf%d:%s@%d(as read by the callee)" % (i, c, o) for i, (o, c) in enumerate(ls)] + \
+                       ["ret.leaf%d:%s@%d" % (i, c, o) for i, (o, c) in enumerate(ls)]
+            return ["ret.leaf%d:%s@%d(=input.leaf%d)" % (i, c, o, self.perm[i]) for i, (o, c) in enumerate(ls)]
+        if self.kind == "argp":
+            ls = layout(self.t)[2]
+            return ["arg.leaf%d:%s@%d" % (i, c, o) for i, (o, c) in enumerate(ls)] + ["ret:int32"] + \
+                   ["M.leaf%d.after:%s@%d" % (i, c, o) for i, (o, c) in enumerate(ls)]
         lab = ["pre%d:%s" % (i, c) for i, c in enumerate(self.pre)]
         if self.has_arg():
             lab += ["arg.leaf%d:%s@%d" % (i, c, o) for i, (o, c) in enumerate(layout(self.t)[2])]
@@ -457,8 +520,13 @@ class Case:
         return lab
 
     def describe(self):
-        return {"case": self.idx, "kind": self.kind, "shape": code(self.t), "pre": "".join(self.pre), "post": "".join(self.post),
-                "closure": self.closure, "capture": self.capture, "sig": " ".join(self.sig_words())}
+        d = {"case": self.idx, "kind": self.kind, "shape": code(self.t), "pre": "".join(self.pre), "post": "".join(self.post),
+             "closure": self.closure, "capture": self.capture, "sig": " ".join(self.sig_words())}
+        if self.kind == "inp":
+            d.update({"go_call_site": INP_DESTS[self.dest], "callee_style": self.style, "perm": self.perm})
+        if self.kind == "argp":
+            d.update({"go_call_site": ARGP_SRCS[self.dest]})
+        return d
 
 
 def build_sources(shapes, cases):
@@ -468,7 +536,8 @@ def build_sources(shapes, cases):
       refmain.c (the same calls made from C, with C callbacks)"""
     names = [Names("T%d" % i, t) for i, t in enumerate(shapes)]
     used = sorted(set(c.shape_idx for c in cases))
-    h = [C_PRELUDE, C_LOG_DECL]
+    h = ["#pragma once", C_PRELUDE, C_LOG_DECL]
+    inplace = ['#include "shapes.h"', ""]
     for i in used:
         h += names[i].decl_c
         h.append("void vlogT%d(const struct T%d *p);" % (i, i))
@@ -526,6 +595,67 @@ def build_sources(shapes, cases):
             ref.append("static void case%d(void) { d%d(g%d); }" % (k, k, k))
             go.append("")
             continue
+        if cs.kind == "inp":
+            leaves_r = nm.c_leaf_exprs("r")
+            leaves_p = nm.c_leaf_exprs("(*p)")
+            via_global = cs.dest == "cglobal"
+            if via_global:
+                inplace.append("static const %s *gp%d; void keep%d(const %s *p) { gp%d = p; }" % (T, k, k, T, k))
+                h.append("void keep%d(const %s *p); %s c%d(void);" % (k, T, T, k))
+                head = "%s c%d(void) { const %s *p = gp%d;" % (T, k, T, k)
+            else:
+                h.append("%s c%d(const %s *p);" % (T, k, T))
+                head = "%s c%d(const %s *p) {" % (T, k, T)
+            if cs.style == "touch":
+                inplace.append(cval_r)
+                inplace.append("%s %s r = vr%d; vtouch(&r); vlogT%d(p); return r; }" % (head, T, k, cs.shape_idx))
+            else:
+                body = " ".join("%s = %s;" % (leaves_r[j][1], leaves_p[cs.perm[j]][1]) for j in range(len(leaves_r)))
+                inplace.append("%s %s r; memset(&r, 0, sizeof r); %s return r; }" % (head, T, body))
+            go.append("var va%d = %s" % (k, nm.go_lit(cs.arg_v)))
+            if via_global:
+                go += ["//go:linkname c%d C.c%d" % (k, k), "func c%d() %s" % (k, GT), "//go:linkname keep%d C.keep%d" % (k, k), "func keep%d(p *%s)" % (k, GT)]
+            else:
+                go += ["//go:linkname c%d C.c%d" % (k, k), "func c%d(p *%s) %s" % (k, GT, GT)]
+            L = "vlogT%d" % cs.shape_idx
+            gosite = {
+                "local": "func case%d() { v := va%d; v = c%d(&v); %s(&v) }" % (k, k, k, L),
+                "global": "var gv%d %s\nfunc case%d() { gv%d = va%d; gv%d = c%d(&gv%d); %s(&gv%d) }" % (k, GT, k, k, k, k, k, k, L, k),
+                "ptr": "func h%d(p *%s) { *p = c%d(p) }\nfunc case%d() { v := va%d; h%d(&v); %s(&v) }" % (k, GT, k, k, k, k, L),
+                "heap": "func case%d() { p := new(%s); *p = va%d; *p = c%d(p); %s(p) }" % (k, GT, k, k, L),
+                "field": "type w%d struct { pad int32; f %s }\nfunc case%d() { var w w%d; w.f = va%d; w.f = c%d(&w.f); %s(&w.f) }" % (k, GT, k, k, k, k, L),
+                "elem": "func case%d() { var arr [3]%s; arr[1] = va%d; arr[1] = c%d(&arr[1]); %s(&arr[1]) }" % (k, GT, k, k, L),
+                "other": "func case%d() { a := va%d; b := c%d(&a); %s(&b) }" % (k, k, k, L),
+                "cglobal": "func case%d() { v := va%d; keep%d(&v); v = c%d(); %s(&v) }" % (k, k, k, k, L),
+            }[cs.dest]
+            go += gosite.split("\n")
+            go.append("")
+            ref.append(cval_a)
+            if via_global:
+                ref.append("static void case%d(void) { %s v = va%d; keep%d(&v); v = c%d(); vlogT%d(&v); }" % (k, T, k, k, k, cs.shape_idx))
+            elif cs.dest == "other":
+                ref.append("static void case%d(void) { %s a = va%d; %s b = c%d(&a); vlogT%d(&b); }" % (k, T, k, T, k, cs.shape_idx))
+            else:
+                ref.append("static void case%d(void) { %s v = va%d; v = c%d(&v); vlogT%d(&v); }" % (k, T, k, k, cs.shape_idx))
+            continue
+        if cs.kind == "argp":
+            c0 = layout(cs.t)[2][0][1]
+            callee.append("int32_t c%d(%s s, %s *p) { %s = %s; vlogT%d(&s); memset(&s, 0x5A, sizeof s); vtouch(&s); return %d; }" %
+                          (k, T, T, nm.c_leaf_exprs("(*p)")[0][1], c_scalar_lit(c0, cs.mut_v[0]), cs.shape_idx, cs.marker))
+            h.append("int32_t c%d(%s s, %s *p);" % (k, T, T))
+            go.append("var va%d = %s" % (k, nm.go_lit(cs.arg_v)))
+            go += ["//go:linkname c%d C.c%d" % (k, k), "func c%d(s %s, p *%s) int32" % (k, GT, GT)]
+            L = "vlogT%d" % cs.shape_idx
+            gosite = {
+                "local": "func case%d() { v := va%d; r := c%d(v, &v); vlogu(uint64(uint32(r))); %s(&v) }" % (k, k, k, L),
+                "global": "var gv%d %s\nfunc case%d() { gv%d = va%d; r := c%d(gv%d, &gv%d); vlogu(uint64(uint32(r))); %s(&gv%d) }" % (k, GT, k, k, k, k, k, k, L, k),
+                "deref": "func h%d(p *%s) int32 { return c%d(*p, p) }\nfunc case%d() { v := va%d; r := h%d(&v); vlogu(uint64(uint32(r))); %s(&v) }" % (k, GT, k, k, k, k, L),
+            }[cs.dest]
+            go += gosite.split("\n")
+            go.append("")
+            ref.append(cval_a)
+            ref.append("static void case%d(void) { %s v = va%d; int32_t r = c%d(v, &v); vpush((uint64_t)(uint32_t)r); vlogT%d(&v); }" % (k, T, k, k, cs.shape_idx))
+            continue
         if cs.has_arg():
             go.append("var va%d = %s" % (k, nm.go_lit(cs.arg_v)))
             ref.append(cval_a)
@@ -579,7 +709,11 @@ def build_sources(shapes, cases):
         ref.append("  case %d: case%d(); break;" % (cs.idx, cs.idx))
     go += ["\t}", "}", "", "func main() {", "\tfor {", "\t\tk := vnext()", "\t\tif k < 0 {", "\t\t\tbreak", "\t\t}", "\t\tvbegin(k)", "\t\trun(k)", "\t\tvend(k)", "\t}", "}", ""]
     ref += ["  }", "}", "int main(void) { for (;;) { int k = vnext(); if (k < 0) break; vbegin(k); run(k); vend(k); } return 0; }", ""]
-    return {"shapes.h": "\n".join(h) + "\n", "callee.c": "\n".join(callee) + "\n", "main.go": "\n".join(go), "refmain.c": "\n".join(ref)}
+    # the callees of kind 'inp' live in a file of their own: they are always compiled by clang (which constructs a returned
+    # struct in place, i.e. writes the result object while reading the input), also when the rest of the C side is gcc's
+    callee += ["#ifndef VERIF_NO_INPLACE", '#include "inplace.c"', "#endif"]
+    return {"shapes.h": "\n".join(h) + "\n", "callee.c": "\n".join(callee) + "\n", "inplace.c": "\n".join(inplace) + "\n",
+            "main.go": "\n".join(go), "refmain.c": "\n".join(ref)}
 
 
 def parse_output(out):
@@ -598,3 +732,73 @@ def parse_output(out):
                 continue
             cur = None
     return res, cur
+
+
+# ------------------------------------------------------------------ call-site contexts for the in-process tie (harness/c09 `xform`)
+LL_SC = {"b": "i8", "h": "i16", "w": "i32", "q": "i64", "p": "ptr", "f": "float", "d": "double"}
+
+
+def ll_type(t):
+    if t[0] == "sc":
+        return LL_SC[t[1]]
+    if t[0] == "st":
+        return "{ " + ", ".join(ll_type(f) for f in t[1]) + " }" if t[1] else "{}"
+    return "[%d x %s]" % (t[1], ll_type(t[2]))
+
+
+# what the Go code does with the result of the call:  name -> (destination object | None, the result's only use is the directly following store)
+CS_USES = {
+    "nsl": ("loc", True),      # v = f(&v): store to the local whose address is an argument
+    "nsg": ("g", True),        # g = f(&g): store to a package variable
+    "nsp": ("dstp", True),     # *p = f(p): store through a pointer parameter
+    "nso": ("other", True),    # b = f(&a): store to an unrelated local
+    "two": ("loc", False),     # the result has a second use
+    "late": ("loc", False),    # an instruction sits between the call and the store (bd.pos = f(&bd.pos))
+    "ret": (None, False),      # return f(&v)
+}
+# how the by-value aggregate argument was produced:  name -> the argument is a load (directly before the call or earlier)
+CS_ARGS = {"load": True, "early": True, "const": False, "none": None}
+
+
+def callsite_module(t):
+    """textual LLVM IR (opaque pointers): one caller per (use, arg) context around a call `T cf(ptr[, T])`"""
+    T = ll_type(t)
+    out = ["@g = global %s zeroinitializer" % T, ""]
+    names = []
+    for use, (dest, _) in CS_USES.items():
+        for arg, isload in CS_ARGS.items():
+            nm = "%s_%s" % (use, arg)
+            names.append(nm)
+            byv = arg != "none"
+            out.append("declare %s @cf_%s(ptr%s)" % (T, nm, (", " + T) if byv else ""))
+            rett = T if use == "ret" else "void"
+            out.append("define %s @caller_%s(ptr %%dstp) {" % (rett, nm))
+            out.append("entry:")
+            for v in ("loc", "other", "src"):
+                out.append("  %%%s = alloca %s" % (v, T))
+                out.append("  store %s zeroinitializer, ptr %%%s" % (T, v))
+            ptrarg = {"nsl": "%loc", "nsg": "@g", "nsp": "%dstp", "nso": "%src", "two": "%loc", "late": "%loc", "ret": "%loc"}[use]
+            a = ""
+            if arg == "load":
+                out.append("  %%a = load %s, ptr %%src" % T)
+                a = ", %s %%a" % T
+            elif arg == "early":
+                out.append("  %%a = load %s, ptr %%src" % T)
+                out.append("  store %s zeroinitializer, ptr %%src" % T)
+                a = ", %s %%a" % T
+            elif arg == "const":
+                a = ", %s zeroinitializer" % T
+            out.append("  %%r = call %s @cf_%s(ptr %s%s)" % (T, nm, ptrarg, a))
+            if use == "ret":
+                out.append("  ret %s %%r" % T)
+            else:
+                d = {"loc": "%loc", "g": "@g", "dstp": "%dstp", "other": "%other"}[dest]
+                if use == "late":
+                    out.append("  %x = getelementptr i8, ptr %dstp, i64 0")
+                out.append("  store %s %%r, ptr %s" % (T, d))
+                if use == "two":
+                    out.append("  store %s %%r, ptr %%other" % T)
+                out.append("  ret void")
+            out.append("}")
+            out.append("")
+    return "\n".join(out), names
